@@ -909,6 +909,20 @@ func (j *judge) judgeResponse(r *ReqRec) {
 	who := r.String()
 	for _, op := range promisesOf(res) {
 		j.checkOutPromise(op, r.ResSnap, who)
+		if op.p.State == promise.Pending {
+			// C01-I5, "from then on ... the same in every response": a promise whose completion was committed before the
+			// request was submitted, or by a transaction of the request itself, cannot leave the server as pending
+			if row, ok := j.s.Snaps[r.SubmitSnap]["promises"][op.p.Id]; ok && row.I("state") != int64(promise.Pending) {
+				j.add("C01", "I5", "", "%s returned promise %s (%s) as pending although its completion was committed before the request was submitted: %s", who, op.p.Id, op.where, core.RowString(row))
+			} else {
+				for _, c := range j.changed(r, "promises", op.p.Id) {
+					if c.After != nil && c.After.I("state") != int64(promise.Pending) {
+						j.add("C01", "I5", "", "%s returned promise %s (%s) as pending although the request itself had completed it: %s", who, op.p.Id, op.where, core.RowString(c.After))
+						break
+					}
+				}
+			}
+		}
 		// C04-O1 (read, create, complete, search)
 		if op.p.State == promise.Pending && op.p.Timeout <= r.ResTick && (op.where == "read" || op.where == "create" || op.where == "complete" || op.where == "search") {
 			key := ""
